@@ -330,6 +330,7 @@ func C18(c *Ctx) {
 	R19Eval(c)
 	R19NumberExact(c)
 	R19InnermostScope(c)
+	R19StripClass(c)
 }
 
 func C20(c *Ctx) {
@@ -339,6 +340,7 @@ func C20(c *Ctx) {
 	R20ItemPairing(c)
 	R20NumberExact(c)
 	R20PassOrder(c)
+	R20EscapeSiblings(c)
 }
 
 func C17(c *Ctx) {
